@@ -101,9 +101,8 @@ fn build_fix(dir: &Path, tag: &str, files: Vec<Pending>) -> Result<Fix, String> 
 }
 
 /// Fixture "D": a 1300-file archive in which, after the build, one sector of a multi-sector member is overwritten (no sector
-/// checksums: the damage shows as a decompression error in the middle of the member) and the block-table entry of another
-/// member is pointed at the last bytes of the archive file with the sector-checksum flag set (its checksum trailer lies behind
-/// the end of the file: an I/O-kind error). The member stored right behind the damaged one is intact. What a sequential
+/// checksums: the damage shows as a decompression error in the middle of the member). The member stored right behind the
+/// damaged one is intact. What a sequential
 /// reader answers is recorded per name with a fresh handle each (no state carried from one read to the next).
 const DMG_MULTI: &str = "dmg\\multi.bin";
 const DMG_AFTER: &str = "dmg\\after.bin";
@@ -115,35 +114,33 @@ fn build_damaged_fix(dir: &Path, rng: &mut Rng) -> Result<Fix, String> {
     files.insert(at, Pending { name: DMG_MULTI.into(), data: gen_content(rng, "text", 20_000), method: 0x02, enc: 0 });
     files.insert(at + 1, Pending { name: DMG_AFTER.into(), data: rng.bytes(3000), method: 0, enc: 0 });
     files.push(Pending { name: DMG_EOF.into(), data: gen_content(rng, "text", 1500), method: 0x02, enc: 0 });
+    // a second damaged member (a later sector overwritten completely) with an intact neighbour of its own
+    let at2 = files.len() / 4;
+    files.insert(at2, Pending { name: "dmg\\multi2.bin".into(), data: gen_content(rng, "text", 30_000), method: 0x02, enc: 0 });
+    files.insert(at2 + 1, Pending { name: "dmg\\after2.bin".into(), data: rng.bytes(2000), method: 0, enc: 0 });
     let truth: HashMap<String, Vec<u8>> = files.iter().map(|f| (f.name.clone(), f.data.clone())).collect();
     let mut fx = build_fix(dir, "D", files)?;
-    let (multi, eof) = (fx.seq.find_file(DMG_MULTI).ok().flatten().ok_or("D: no multi")?, fx.seq.find_file(DMG_EOF).ok().flatten().ok_or("D: no eof")?);
-    let hdr = fx.seq.header().clone();
-    let ao = fx.seq.archive_offset();
+    let multi = fx.seq.find_file(DMG_MULTI).ok().flatten().ok_or("D: no multi")?;
     let mut bytes = std::fs::read(&fx.path).map_err(|e| e.to_string())?;
     // (a) second sector of the multi-sector member: the sector offset table sits at the start of the stored file
     let fp = multi.file_pos as usize;
     let rd = |b: &[u8], o: usize| u32::from_le_bytes([b[o], b[o + 1], b[o + 2], b[o + 3]]) as usize;
-    let (s1, s2) = (rd(&bytes, fp + 4), rd(&bytes, fp + 8));
-    if !(s1 < s2 && fp + s2 <= bytes.len()) {
+    // (the first sector, behind its compression byte: the read fails right after the offset table, far from the member's end)
+    let (s0, s1) = (rd(&bytes, fp), rd(&bytes, fp + 4));
+    if !(s0 + 30 < s1 && fp + s1 <= bytes.len()) {
         return Err("D: unexpected sector table".into());
     }
-    for x in bytes[fp + s1..fp + s2].iter_mut() {
+    for x in bytes[fp + s0 + 1..fp + s0 + 25].iter_mut() {
         *x = 0xFF;
     }
-    // (b) block-table entry of the last member: stored bytes = the last csize bytes of the file, checksum flag set
-    let bt = (ao + hdr.get_block_table_pos()) as usize;
-    let n = hdr.block_table_size as usize;
-    let key = wow_mpq::hash_string("(block table)", 3);
-    let mut tab: Vec<u32> = (0..n * 4).map(|i| rd(&bytes, bt + 4 * i) as u32).collect();
-    wow_mpq::crypto::decrypt_block(&mut tab, key);
-    let bi = eof.block_index;
-    let csize = tab[bi * 4 + 1] as usize;
-    tab[bi * 4] = (bytes.len() - csize - ao as usize) as u32;
-    tab[bi * 4 + 3] |= 0x0400_0000;
-    wow_mpq::crypto::encrypt_block(&mut tab, key);
-    for (i, v) in tab.iter().enumerate() {
-        bytes[bt + 4 * i..bt + 4 * i + 4].copy_from_slice(&v.to_le_bytes());
+    if let Some(m2) = fx.seq.find_file("dmg\\multi2.bin").ok().flatten() {
+        let fp = m2.file_pos as usize;
+        let (a, b) = (rd(&bytes, fp + 12), rd(&bytes, fp + 16));
+        if a < b && fp + b <= bytes.len() {
+            for x in bytes[fp + a..fp + b].iter_mut() {
+                *x = 0xFF;
+            }
+        }
     }
     std::fs::write(&fx.path, &bytes).map_err(|e| e.to_string())?;
     // baselines afresh, one handle per name; every untouched member must still be what was added
@@ -157,7 +154,9 @@ fn build_damaged_fix(dir: &Path, rng: &mut Rng) -> Result<Fix, String> {
             Err(e) => Exp::Err(variant(&e)),
         };
         let intact = matches!(&e, Exp::Ok(d) if Some(&**d) == truth.get(&nme));
-        if nme == DMG_MULTI || nme == DMG_EOF {
+        if nme == "dmg\\multi2.bin" {
+            // whatever a sequential reader makes of it (an error, or bytes that are not what was added) is the baseline
+        } else if nme == DMG_MULTI {
             if !e.is_err() {
                 return Err(format!("D: the damage to {nme} does not show in a sequential read"));
             }
@@ -1283,6 +1282,10 @@ fn main() {
         run.extra("baseline_files_equal_to_builder_input", json!(eq));
         run.extra("baseline_files_differing_from_builder_input", json!(ne));
         run.extra("fixture_archives", json!(fixes.iter().map(|f| format!("{}:{} files", f.tag, f.names.len())).collect::<Vec<_>>()));
+        if let Some(d) = fixes.iter().find(|f| f.tag == "D") {
+            let show = |n: &str| match d.base.get(n) { Some(Exp::Err(v)) => format!("Err({v})"), Some(Exp::Ok(b)) => format!("Ok({} bytes)", b.len()), None => "?".into() };
+            run.extra("damaged_fixture_sequential_answers", json!({DMG_MULTI: show(DMG_MULTI), DMG_AFTER: show(DMG_AFTER), DMG_EOF: show(DMG_EOF)}));
+        }
     }
 
     let stop = Arc::new(AtomicBool::new(false));
@@ -1656,6 +1659,66 @@ fn main() {
                 }
             }
             let _ = std::fs::remove_file(&path);
+        });
+    }
+    // L. extract_with_config with error skipping while the process is short of file descriptors: some per-name handles cannot
+    // be opened (an I/O-kind failure of those names), the others can. Every slot is there; a slot is either the right bytes
+    // or an error; the call as a whole succeeds.
+    let starve_base = fault_base + fault_specs.len() as u64;
+    for (si, &(threads, spare)) in [(8usize, 2u64), (4, 1), (16, 3), (0, 2)].iter().enumerate() {
+        let idx = starve_base + si as u64;
+        if !run.want(idx) || (run.args.only.is_none() && mix(idx) % stride != 0) {
+            continue;
+        }
+        let class = format!("extract_with_config|descriptor-starved|t{threads}|spare{spare}");
+        let desc = json!({"interface": "extract_with_config", "threads": threads, "spare_descriptors": spare, "skip_errors": true, "what": "240 names (per-file path) while RLIMIT_NOFILE leaves only a few free descriptors"});
+        let fx = &mut fixes[0];
+        let pool: Vec<String> = fx.names.iter().filter(|n| !fx.base.get(*n).map(|e| e.is_err()).unwrap_or(false)).cloned().collect();
+        let names: Vec<String> = (0..240).map(|i| pool[i % pool.len()].clone()).collect();
+        let want: Vec<Exp> = names.iter().map(|n| fx.expect(n)).collect();
+        let path = fx.path.clone();
+        run.case(idx, &class, desc, |c| {
+            let refs: Vec<&str> = names.iter().map(|s| s.as_str()).collect();
+            let mut cfg = ParallelConfig::new().skip_errors(true);
+            if threads > 0 {
+                cfg = cfg.threads(threads);
+            }
+            let maxfd = std::fs::read_dir("/proc/self/fd").map(|d| d.filter_map(|e| e.ok()).filter_map(|e| e.file_name().to_string_lossy().parse::<u64>().ok()).max().unwrap_or(64)).unwrap_or(64);
+            let mut old_lim = libc::rlimit { rlim_cur: 0, rlim_max: 0 };
+            unsafe {
+                libc::getrlimit(libc::RLIMIT_NOFILE, &mut old_lim);
+                let lim = libc::rlimit { rlim_cur: maxfd + 1 + spare, rlim_max: old_lim.rlim_max };
+                libc::setrlimit(libc::RLIMIT_NOFILE, &lim);
+            }
+            let got = trap(|| extract_with_config(&path, &refs, cfg));
+            unsafe { libc::setrlimit(libc::RLIMIT_NOFILE, &old_lim) };
+            c.count("starved_calls", 1);
+            match got {
+                Err(p) => c.violate(format!("panic|extract_with_config|descriptor-starved|{}", p.sig()), format!("extract_with_config panicked while descriptors were short: {}", p.msg), json!({})),
+                Ok(Err(e)) => c.violate(format!("descriptor-starved|extract_with_config|call-fails|{}", variant(&e)), format!("with error skipping the call failed as a whole ({e}) although only some names could not be opened"), json!({"threads": threads, "spare": spare})),
+                Ok(Ok(v)) => {
+                    if v.len() != names.len() {
+                        c.violate("descriptor-starved|extract_with_config|slot-count".to_string(), format!("{} results for {} names", v.len(), names.len()), json!({}));
+                        return;
+                    }
+                    let (mut oks, mut errs) = (0u64, 0u64);
+                    for (k, ((gn, gr), w)) in v.iter().zip(&want).enumerate() {
+                        match (gr, w) {
+                            (Ok(d), Exp::Ok(wd)) if gn == &names[k] && *d == **wd => oks += 1,
+                            (Err(_), _) if gn == &names[k] => errs += 1,
+                            _ => {
+                                c.violate("descriptor-starved|extract_with_config|slot-content".to_string(), format!("slot {k} ({}) holds bytes that are not what a sequential read returns", names[k]), json!({}));
+                                return;
+                            }
+                        }
+                    }
+                    c.count("starved_slots_ok", oks);
+                    c.count("starved_slots_err", errs);
+                    if errs == 0 {
+                        c.count("starved_calls_where_the_limit_did_not_bite", 1);
+                    }
+                }
+            }
         });
     }
     stop.store(true, Ordering::Relaxed);
